@@ -152,6 +152,9 @@ def run(ctx: Ctx) -> None:
                        where=cls_key)
     ctx.floor(brule, 4)
     guard_placement(ctx, FUNC_MODULES + [m for m in CLASS_MODULES if m in ctx.prog.modules])
+    from ..tables import t6_transforms
+    t6_transforms.run_generic_leaf(ctx)
+    ctx.floor("T20.generic-leaf", 4)
     from ..tables import t5_derivs
     with ctx.only("T5.dtype"):  # float64 fields are differentiated in float64 (no float32 intermediate: finite-difference checks of the gradients need it)
         t5_derivs.run_dtype(ctx)
